@@ -395,7 +395,18 @@ func (g *gen) join() {
 		"exact", "exact", "all", "all", "undersigned", "undersigned", "random",
 		"unknown-candidate", "wrong-start", "self-wrong-key", "no-self", "member-target",
 		"pad-foreign", "pad-member-addr-wrong-key", "pad-forged", "pad-candidates", "dup-signs",
-	}[rng.Intn(17)]
+		"repeat-fresh-api", "repeat-fresh-wire", "repeat-fresh-api", "repeat-fresh-wire",
+	}[rng.Intn(21)]
+
+	// one member signing several times (fresh, valid, non-identical signatures)
+	// on top of need-2 other members: distinct members = need-1
+	var repeater *Member
+
+	if strings.HasPrefix(variant, "repeat-fresh") {
+		if p.Need() < 2 {
+			variant = "undersigned"
+		}
+	}
 
 	var target base.Address
 	var selfkey base.Privatekey
@@ -435,12 +446,23 @@ func (g *gen) join() {
 		hostile = strings.TrimPrefix(variant, "pad-")
 	case variant == "dup-signs":
 		k = g.signCount("undersigned")
+	case strings.HasPrefix(variant, "repeat-fresh"):
+		k = p.Need() - 2
 	case variant == "unknown-candidate", variant == "wrong-start", variant == "self-wrong-key",
 		variant == "no-self", variant == "member-target":
 		k = g.signCount("all")
 	}
 
 	signers := g.memberSigners(k, hostile)
+
+	if strings.HasPrefix(variant, "repeat-fresh") {
+		if rest := g.pickMembersExcluding(signers); len(rest) > 0 {
+			repeater = &rest[rng.Intn(len(rest))]
+		} else {
+			variant = "undersigned"
+		}
+	}
+
 	if variant != "no-self" {
 		signers = append(signers, signer{node: target, priv: selfkey})
 		rng.Shuffle(len(signers), func(i, j int) { signers[i], signers[j] = signers[j], signers[i] })
@@ -481,6 +503,29 @@ func (g *gen) join() {
 			out, m.Signs = dup, dmetas
 		} else {
 			m.Variant = "dup-signs-failed:" + firstLine(err.Error())
+		}
+	}
+
+	if repeater != nil {
+		extra, emetas := repeatedMemberSigns(g.env, *repeater, fact, 3+rng.Intn(2))
+
+		switch variant {
+		case "repeat-fresh-api": // the public API keeps several signs of one node when they arrive together
+			if _, err := op.AddNodeSigns(extra); err != nil {
+				panic(err)
+			}
+
+			out, m.Signs = op, append(m.Signs, emetas...)
+		default:
+			if w, err := appendSignsWire(g.env, op, extra); err == nil {
+				out, m.Signs = w, append(m.Signs, emetas...)
+			} else {
+				m.Variant = "repeat-fresh-wire-failed:" + firstLine(err.Error())
+			}
+		}
+
+		if len(out.Signs()) != len(m.Signs) {
+			panic(fmt.Sprintf("repeat-fresh: %d signs, %d metas", len(out.Signs()), len(m.Signs)))
 		}
 	}
 
@@ -594,7 +639,13 @@ func (g *gen) disjoin() {
 func (g *gen) policy() {
 	p, rng := g.p, g.rng
 
-	variant := []string{"exact", "all", "undersigned", "same-policy", "pad-foreign", "pad-forged"}[rng.Intn(6)]
+	variant := []string{
+		"exact", "all", "undersigned", "same-policy", "pad-foreign", "pad-forged", "repeat-fresh-api", "repeat-fresh-wire",
+	}[rng.Intn(8)]
+
+	if strings.HasPrefix(variant, "repeat-fresh") && p.Need() < 2 {
+		variant = "undersigned"
+	}
 
 	pol := p.Policy
 	if variant != "same-policy" {
@@ -611,10 +662,23 @@ func (g *gen) policy() {
 	case strings.HasPrefix(variant, "pad-"):
 		k = g.signCount("undersigned")
 		hostile = strings.TrimPrefix(variant, "pad-")
+	case strings.HasPrefix(variant, "repeat-fresh"):
+		k = p.Need() - 2
 	}
 
 	signers := dedupSigners(g.memberSigners(k, hostile))
-	if len(signers) == 0 {
+
+	var repeater *Member
+
+	if strings.HasPrefix(variant, "repeat-fresh") {
+		if rest := g.pickMembersExcluding(signers); len(rest) > 0 {
+			repeater = &rest[rng.Intn(len(rest))]
+		} else {
+			variant = "undersigned"
+		}
+	}
+
+	if len(signers) == 0 && repeater == nil {
 		a, kk := g.freshNode()
 		signers = append(signers, signer{node: a, priv: kk})
 	}
@@ -637,7 +701,37 @@ func (g *gen) policy() {
 		panic(err)
 	}
 
-	g.add(op, OpMeta{Kind: "policy", Variant: variant, Signs: metas})
+	var out base.Operation = op
+
+	if repeater != nil {
+		extra, emetas := repeatedMemberSigns(g.env, *repeater, fact, 3+rng.Intn(2))
+
+		switch variant {
+		case "repeat-fresh-api":
+			if _, err := op.AddNodeSigns(extra); err != nil {
+				panic(err)
+			}
+
+			out, metas = op, append(metas, emetas...)
+		default:
+			if len(nss) == 0 { // the wire form needs at least the first sign in place
+				if _, err := op.AddNodeSigns(extra[:1]); err != nil {
+					panic(err)
+				}
+
+				metas = append(metas, emetas[0])
+				extra, emetas = extra[1:], emetas[1:]
+			}
+
+			if w, err := appendSignsWire(g.env, op, extra); err == nil {
+				out, metas = w, append(metas, emetas...)
+			} else {
+				variant = "repeat-fresh-wire-failed:" + firstLine(err.Error())
+			}
+		}
+	}
+
+	g.add(out, OpMeta{Kind: "policy", Variant: variant, Signs: metas})
 }
 
 func (g *gen) expel() {
